@@ -17,9 +17,10 @@ import (
 
 var emailRegex = regexp.MustCompile(`^[a-zA-Z0-9.!#$%&'*+/=?^_` + "`" + `{|}~-]+@[a-zA-Z0-9](?:[a-zA-Z0-9-]{0,61}[a-zA-Z0-9])?(?:\.[a-zA-Z0-9](?:[a-zA-Z0-9-]{0,61}[a-zA-Z0-9])?)*$`)
 
+var ixscanRegex = regexp.MustCompile(`IXSCAN\s*\{([^}]+)\}`)
+
 func ParsePlanSummary(planSummary string) []string {
-	re := regexp.MustCompile(`IXSCAN\s*\{([^}]+)\}`)
-	allMatches := re.FindAllStringSubmatch(planSummary, -1)
+	allMatches := ixscanRegex.FindAllStringSubmatch(planSummary, -1)
 	fieldSet := make(map[string]struct{})
 
 	for _, match := range allMatches {
